@@ -25,6 +25,7 @@ func engineORD(w *World, tier string) *EngineResult {
 	ordArgs(w, r)
 	ordFrame(w, r)
 	ordFlat(w, r)
+	ordLastWins(w, r)
 	r.finish()
 	return r
 }
@@ -48,6 +49,60 @@ func callsSort(fn *ssa.Function) *ssa.Call {
 		}
 	}
 	return nil
+}
+
+// returnsFieldUnchanged: single-block accessor returning a load of a field of its receiver.
+func returnsFieldUnchanged(fn *ssa.Function) bool {
+	if fn == nil || len(fn.Blocks) != 1 || len(fn.Params) == 0 {
+		return false
+	}
+	ret, ok := fn.Blocks[0].Instrs[len(fn.Blocks[0].Instrs)-1].(*ssa.Return)
+	if !ok || len(ret.Results) != 1 {
+		return false
+	}
+	u, ok := ret.Results[0].(*ssa.UnOp)
+	if !ok {
+		return false
+	}
+	fa, ok := u.X.(*ssa.FieldAddr)
+	return ok && fa.X == ssa.Value(fn.Params[0])
+}
+
+// sliceBehind: v = load(IndexAddr(load(freevar), i)) → the free variable.
+func sliceBehind(v ssa.Value, cf *ssa.Function) ssa.Value {
+	for i := 0; i < 6; i++ {
+		switch x := v.(type) {
+		case *ssa.UnOp:
+			v = x.X
+		case *ssa.IndexAddr:
+			v = x.X
+		case *ssa.FreeVar:
+			return x
+		default:
+			return nil
+		}
+	}
+	return nil
+}
+
+// sameSliceVar: the closure binding (a cell or a value) denotes the slice value sorted.
+func sameSliceVar(bound, sorted ssa.Value) bool {
+	if bound == sorted {
+		return true
+	}
+	// sorted is a load of the cell bound into the closure
+	if u, ok := sorted.(*ssa.UnOp); ok && u.X == bound {
+		return true
+	}
+	// the cell holds the sorted value (stored once)
+	if al, ok := bound.(*ssa.Alloc); ok {
+		for _, ref := range *al.Referrers() {
+			if st, ok := ref.(*ssa.Store); ok && st.Addr == ssa.Value(al) && st.Val == sorted {
+				return true
+			}
+		}
+	}
+	return false
 }
 
 // ---- ORD-canon (C14) ----
@@ -96,6 +151,7 @@ func ordCanon(w *World, r *EngineResult) {
 	}
 	// comparator: compares the same accessor of both elements with <
 	cmpOK, cmpWhy := false, "no sort call with a comparator closure found"
+	agreeChecked, agreeOK, agreeWhy := false, true, ""
 	for _, f := range canon {
 		c := callsSort(f)
 		if c == nil {
@@ -116,8 +172,43 @@ func ordCanon(w *World, r *EngineResult) {
 					cx, ok1 := bo.X.(*ssa.Call)
 					cy, ok2 := bo.Y.(*ssa.Call)
 					if ok1 && ok2 && cx.Call.StaticCallee() != nil && cx.Call.StaticCallee() == cy.Call.StaticCallee() {
+						acc := cx.Call.StaticCallee()
 						cmpOK = true
-						cmpWhy = "comparator of " + fnKey(f) + " orders by " + cx.Call.StaticCallee().Name() + " of both elements"
+						cmpWhy = "comparator of " + fnKey(f) + " orders by " + acc.Name() + " of both elements"
+						// (i) the accessor must return the key text as stored: the parameter names are
+						// sorted as raw strings, so both lists are in the same order only then
+						agreeChecked = true
+						if !returnsFieldUnchanged(acc) {
+							agreeOK = false
+							agreeWhy = "the comparator orders call-site keywords by " + acc.Name() + ", which does not return the stored key unchanged, while the parameter names are sorted as raw strings: the two canonical orders can disagree (w: / w2:) and an argument is matched with the wrong parameter or never propagated"
+						} else {
+							agreeWhy = "call-site keywords are ordered by the stored key text (" + acc.Name() + "), the same text the parameter names are sorted by"
+						}
+						// (ii) the comparator must index the slice that is being sorted
+						var sorted ssa.Value = c.Call.Args[0]
+						if mi, ok := sorted.(*ssa.MakeInterface); ok {
+							sorted = mi.X
+						}
+						for _, operand := range []*ssa.Call{cx, cy} {
+							if len(operand.Call.Args) == 0 {
+								continue
+							}
+							elemSrc := sliceBehind(operand.Call.Args[0], cf)
+							if elemSrc == nil {
+								continue
+							}
+							// elemSrc is a free variable of the closure: find its binding
+							for bi, fv := range cf.FreeVars {
+								if ssa.Value(fv) != elemSrc {
+									continue
+								}
+								bound := mc.Bindings[bi]
+								if !sameSliceVar(bound, sorted) {
+									cmpOK = false
+									cmpWhy = "the comparator reads elements of a different slice than the one being sorted in " + fnKey(f) + ": the result is only partly ordered and depends on the written order"
+								}
+							}
+						}
 					}
 				}
 			}
@@ -127,6 +218,15 @@ func ordCanon(w *World, r *EngineResult) {
 		r.holds("ORD-canon", fnKey(top), "keyword partition sorted by key", cmpWhy, w.pos(top.Pos()))
 	} else {
 		r.violated("ORD-canon", fnKey(top), "keyword partition sorted by key", "the keyword arguments are not brought into a canonical order: "+cmpWhy, w.pos(top.Pos()))
+	}
+	if agreeChecked {
+		if agreeOK {
+			r.holds("ORD-agree", fnKey(top), "keyword order agrees with parameter-name order", agreeWhy, w.pos(top.Pos()))
+		} else {
+			r.violated("ORD-agree", fnKey(top), "keyword order agrees with parameter-name order", agreeWhy, w.pos(top.Pos()))
+		}
+	} else {
+		r.undecided("ORD-agree", fnKey(top), "keyword order agrees with parameter-name order", "comparator accessor not found", w.pos(top.Pos()))
 	}
 	// binders: callers of the canonicaliser; the raw parameter may only flow to it and to len
 	cg := w.CallGraph()
@@ -1151,4 +1251,133 @@ func ordFlat(w *World, r *EngineResult) {
 	}
 	r.Stats["builtin_class_registrations"] = n
 	r.floor("builtin_class_registrations", 1)
+}
+
+// ---- ORD-lastwins (C19) ----
+
+// In the configuration loader every store into a package-level keyed table must not be a
+// plain overwrite: it is either guarded by a test that reads the same table (set-if-absent
+// / keep-the-documented-one) or accumulates onto the entry it replaces (append). A plain
+// overwrite makes the last file loaded win, i.e. the result depends on file names.
+func ordLastWins(w *World, r *EngineResult) {
+	n := 0
+	for _, fn := range w.Funcs {
+		if pkgShort(fn) != "builtin" {
+			continue
+		}
+		ord := map[string]int{}
+		for _, b := range fn.Blocks {
+			for _, ins := range b.Instrs {
+				mu, ok := ins.(*ssa.MapUpdate)
+				if !ok {
+					continue
+				}
+				g := rootGlobal(mu.Map)
+				if g == nil || g.Pkg == nil || !inModule(g.Pkg.Pkg.Path()) {
+					continue
+				}
+				n++
+				construct := "store into " + globalName(g)
+				ord[construct]++
+				if ord[construct] > 1 {
+					construct = fmt.Sprintf("%s#%d", construct, ord[construct])
+				}
+				pos := w.pos(instrPos(mu))
+				// accumulation: the value is append(load of the same entry, …)
+				accum := false
+				if call, ok := mu.Value.(*ssa.Call); ok {
+					if bi, ok := call.Call.Value.(*ssa.Builtin); ok && bi.Name() == "append" && len(call.Call.Args) > 0 {
+						if lk, ok := call.Call.Args[0].(*ssa.Lookup); ok && rootGlobal(lk.X) == g {
+							accum = true
+						}
+					}
+				}
+				// guarded by a condition that reads the same table
+				guarded := false
+				for cur := b; cur != nil && !guarded; cur = cur.Idom() {
+					d := cur.Idom()
+					if d == nil {
+						break
+					}
+					iff, ok := d.Instrs[len(d.Instrs)-1].(*ssa.If)
+					if !ok {
+						continue
+					}
+					var visit func(v ssa.Value, depth int) bool
+					visit = func(v ssa.Value, depth int) bool {
+						if depth > 6 {
+							return false
+						}
+						if lk, ok := v.(*ssa.Lookup); ok && rootGlobal(lk.X) == g {
+							return true
+						}
+						if ph, ok := v.(*ssa.Phi); ok {
+							for _, e := range ph.Edges {
+								if visit(e, depth+1) {
+									return true
+								}
+							}
+							// short-circuit conditions: look at the tests of the predecessors
+							for _, p := range ph.Block().Preds {
+								if pi, ok := p.Instrs[len(p.Instrs)-1].(*ssa.If); ok && visit(pi.Cond, depth+1) {
+									return true
+								}
+							}
+							return false
+						}
+						if insn, ok := v.(ssa.Instruction); ok {
+							var ops []*ssa.Value
+							for _, op := range insn.Operands(ops) {
+								if *op != nil && visit(*op, depth+1) {
+									return true
+								}
+							}
+						}
+						return false
+					}
+					if visit(iff.Cond, 0) {
+						guarded = true
+					}
+				}
+				// one arm of an || chain: a predecessor's test reads the table
+				if !guarded {
+					for _, pb := range b.Preds {
+						if pi, ok := pb.Instrs[len(pb.Instrs)-1].(*ssa.If); ok {
+							var reads func(v ssa.Value, depth int) bool
+							reads = func(v ssa.Value, depth int) bool {
+								if depth > 6 {
+									return false
+								}
+								if lk, ok := v.(*ssa.Lookup); ok && rootGlobal(lk.X) == g {
+									return true
+								}
+								if insn, ok := v.(ssa.Instruction); ok {
+									var ops []*ssa.Value
+									for _, op := range insn.Operands(ops) {
+										if *op != nil && reads(*op, depth+1) {
+											return true
+										}
+									}
+								}
+								return false
+							}
+							if reads(pi.Cond, 0) {
+								guarded = true
+							}
+						}
+					}
+				}
+				switch {
+				case accum:
+					r.holds("ORD-lastwins", fnKey(fn), construct, "accumulates onto the entry it replaces", pos)
+				case guarded:
+					r.holds("ORD-lastwins", fnKey(fn), construct, "dominated by a test that reads the same table entry", pos)
+				default:
+					r.violated("ORD-lastwins", fnKey(fn), construct, "the loader overwrites a shared table entry unconditionally: when two configuration files declare the same key, the file loaded last wins, so renaming files or splitting a class changes the result", pos)
+				}
+			}
+		}
+	}
+	r.Stats["loader_table_stores"] = n
+	r.floor("loader_table_stores", 3)
 }
